@@ -83,6 +83,7 @@ class Collector:
         self.gaps = {}
         self.hangs = {}
         self.counters = {}
+        self.probes = {}
 
     def count(self, k, n=1):
         self.counters[k] = self.counters.get(k, 0) + n
@@ -93,6 +94,12 @@ class Collector:
             self.cands[fingerprint] = dict(what=what, case=case, count=1)
         else:
             c["count"] += 1
+
+    def probe(self, fingerprint, case):
+        """an observation that belongs to ANOTHER property's check (e.g. an exception met while checking positions): it is
+        only confirmed natively.  Reproduces -> left to that property's check; does not reproduce -> the instrumented run
+        disagrees with the real code, which makes this check inconclusive"""
+        self.probes.setdefault(fingerprint, case)
 
     def gap(self, text):
         self.gaps[text] = self.gaps.get(text, 0) + 1
@@ -122,6 +129,13 @@ class Collector:
                 self.count("slow_paths_not_analysed", c["count"])
             else:
                 unconfirmed.append(dict(fingerprint=fp, what=c["what"], case=c["case"], native=r))
+        for fp, case in self.probes.items():
+            r = nat.call(self.hname, case, limit)
+            fps = [v[0] for v in r.get("violations", [])]
+            if fp in fps:
+                self.count("observations_left_to_another_property", 1)
+            else:
+                unconfirmed.append(dict(fingerprint=fp, what="observed in the instrumented run only", case=case, native=r))
         validated, mismatches = 0, []
         seen_fp = {c["fingerprint"] for c in confirmed}
         for case, digest in self.witness:
